@@ -478,6 +478,19 @@ class PDFStandardSecurityHandler:
         return Arcfour(key).decrypt(data)
 
 
+def _remove_pkcs7_padding(data: bytes) -> bytes:
+    """Strip the PKCS#7 padding that AES-CBC encrypted strings and streams carry.
+
+    Data whose last block is not validly padded is returned unchanged.
+    """
+    if not data:
+        return data
+    n = data[-1]
+    if 1 <= n <= 16 and n <= len(data) and data.endswith(bytes((n,)) * n):
+        return data[:-n]
+    return data
+
+
 class PDFStandardSecurityHandlerV4(PDFStandardSecurityHandler):
     supported_revisions: Tuple[int, ...] = (4,)
 
@@ -547,7 +560,8 @@ class PDFStandardSecurityHandlerV4(PDFStandardSecurityHandler):
             modes.CBC(initialization_vector),
             backend=default_backend(),
         )  # type: ignore
-        return cipher.decryptor().update(ciphertext)  # type: ignore
+        plaintext = cipher.decryptor().update(ciphertext)  # type: ignore
+        return _remove_pkcs7_padding(plaintext)
 
 
 class PDFStandardSecurityHandlerV5(PDFStandardSecurityHandlerV4):
@@ -671,7 +685,8 @@ class PDFStandardSecurityHandlerV5(PDFStandardSecurityHandlerV4):
             modes.CBC(initialization_vector),
             backend=default_backend(),
         )  # type: ignore
-        return cipher.decryptor().update(ciphertext)  # type: ignore
+        plaintext = cipher.decryptor().update(ciphertext)  # type: ignore
+        return _remove_pkcs7_padding(plaintext)
 
 
 class PDFDocument:
